@@ -320,3 +320,43 @@ Proof.
   intros Hw. rewrite load_save_skip by exact Hw. cbn [app].
   rewrite filter_true by reflexivity. rewrite prune_load_types_noop, prune_load_nil. reflexivity.
 Qed.
+
+(* skipping names at load time gives the same object as skipping them at save time *)
+Theorem skip_save_eq_load S v :
+  wf_obj v = true -> attr_nested v = true ->
+  load_file S [] (save_file [] [] v) = load_file [] [] (save_file S [] v).
+Proof.
+  intros Hw Hn. rewrite !skip_exact_names by assumption. rewrite app_nil_r. reflexivity.
+Qed.
+
+(* a store that still CONTAINS every attribute but has skip lists recorded in its root loads, without
+   any skip argument, exactly like a load that repeats the lists: the file-stored lists alone suffice *)
+Theorem skip_recorded sn st v :
+  wf_obj v = true ->
+  load_file [] [] (set_attr "_autoserialize_skip_types" (JList (map JStr st))
+                     (set_attr "_autoserialize_skip_names" (JList (map JStr sn)) (encode_root [] [] v)))
+  = load_file sn st (save_file [] [] v) /\
+  load_file sn st (save_file [] [] v) = RVal (prune_load sn st (norm v)).
+Proof.
+  intros Hw. rewrite (load_skip_plain_file sn st v Hw). split; [|reflexivity].
+  destruct v; cbn [wf_obj] in Hw; try discriminate. rewrite encode_root_subg.
+  rewrite (load_saved_obj [] [] sn st cmod cname fields Hw). cbn [app]. rewrite filter_true by reflexivity. reflexivity.
+Qed.
+
+(* pruning depends on the name list only through membership *)
+Lemma prune_load_mem_ext A B st v : (forall k, mem k A = mem k B) -> prune_load A st v = prune_load B st v.
+Proof.
+  intros Hm. induction v using value_ind'; try reflexivity.
+  cbn [prune_load]. f_equal. apply flat_map_ext_in. intros [k x] Hx.
+  rewrite Hm. destruct (mem k B || load_type_skipped st x)%bool; [reflexivity|]. do 2 f_equal.
+  rewrite Forall_forall in H. exact (H _ Hx).
+Qed.
+
+(* ... and when the lists were recorded by a save that skipped, a later plain load and a load
+   repeating them agree *)
+Theorem skip_recorded_save sn v :
+  wf_obj v = true -> load_file [] [] (save_file sn [] v) = load_file sn [] (save_file sn [] v).
+Proof.
+  intros Hw. rewrite !load_save_skip by exact Hw. cbn [filter app]. f_equal.
+  apply prune_load_mem_ext. intros k. rewrite mem_app, orb_diag. reflexivity.
+Qed.
